@@ -115,6 +115,11 @@ func c07Run(c *core.Ctx, idx int) {
 				c.NontrivialStr(fmt.Sprintf("%s|%v", tree.Brief(), path))
 			}
 		}
+		if gok == wok && gok && sameInstance(gv, wv) && !SameValue(gv, wv) {
+			c.Violatef("not-the-stored-value", map[string]any{"tree": tree, "path": path},
+				"Traverse(%v) returned %T where stepwise Index descent yields the stored %T (same underlying instance, different value) on %s", path, gv, wv, tree.Brief())
+			return false
+		}
 		if gok != wok || !sameInstance(gv, wv) {
 			key := "mismatch"
 			if sibling {
@@ -193,7 +198,7 @@ func init() {
 		Rule: "random trees (depth <= 4, width 0..4) with leaves, nil slots, Conditions with stack / non-stack / Condition expressions, alias forms and per-stack negative/forward index options; " +
 			"for each tree ALL paths of length 0..3 over indices [-1,5] plus 600 sampled paths of length 4..depth+2; Traverse is compared (value identity after alias normalisation, success flag) with a reference descent written over Index/ConvertStack/ConvertCondition/Expression only. " +
 			"non-trivial = the reference fails at step j while a later index, applied to that same level, addresses something descendable (the sibling-substitution shape); distinct = (tree, path).",
-		Assumptions: []string{"results are compared by identity of the underlying instance, so returning an alias or its native conversion is both accepted"},
+		Assumptions: []string{"'exactly the value' is read strictly: the dynamic type and identity of the result must equal what Index yields (an alias stays an alias)"},
 		Floors: func(tier string) map[string]int64 {
 			return map[string]int64{"paths.sibling-substitution-shape": 1000, "paths.succeeding": 10000}
 		},
